@@ -246,3 +246,22 @@ def _borrowed_local(body, tmp, depth=8):
                 continue
         return cur
     return cur
+
+
+def index_counted_from_end(body, call):
+    """A search call (`position`, or `find`/`find_map` over `enumerate()`) whose index counts from the END of the
+    underlying sequence: `it.rev().position(..)`, `it.rev().enumerate().find(..)`.  (`enumerate().rev()` keeps forward
+    indices.)  The type of the iterator the call is applied to tells."""
+    node = call.node if hasattr(call, "node") else call
+    cn = strip_generics(node.get("callee") or "")
+    if not node.get("args"):
+        return False
+    l = _borrowed_local(body, op_place(node["args"][0])["l"]) if op_place(node["args"][0]) is not None else None
+    ty = body.local_ty(l) if l is not None else ""
+    ty = re.sub(r"^&(mut )?", "", ty)
+    if re.search(r"Iterator>?::position$", cn):
+        # the outermost adapters that do not renumber (Rev itself renumbers position)
+        return bool(re.match(r"^(std::iter::(Peekable|Fuse|Inspect|Cloned|Copied|Map)<)*std::iter::Rev<", ty))
+    if re.search(r"Iterator>?::(find|find_map|rfind|filter|filter_map|map|next)$", cn):
+        return "std::iter::Enumerate<std::iter::Rev<" in ty
+    return False
